@@ -29,9 +29,7 @@ package preservice
 //@   modifies txtOf
 //@   ensures err == nil ==> msg != nil && fresh(msg) && txtOf[msg] == strs && msg.Rcode == 0
 //@   ensures err != nil ==> msg == nil
-//@ func (*dnsmsg.Constructor).NewRespRCode
-//@   modifies nothing
-//@   ensures resp != nil && fresh(resp) && resp.Rcode == rc && resp.Id == req.Id
+// (dnsmsg.Constructor.NewRespRCode: assumed contract in dnsmsg's own contract file)
 
 //@ func (*Middleware).respondWithHashes
 //@   property C11
